@@ -47,7 +47,7 @@ def split_executions(log):
 
 
 def conform(ctx, label, executions, run_harness, trace_module, trace_cfg, predict_cfg=None, key_fn=None,
-            max_report=3, tlc_timeout=900, env=None, heap="4g", crash_is_violation=True, meta=None):
+            max_report=3, tlc_timeout=900, env=None, heap="4g", crash_is_violation=True, meta=None, end_op=None):
     """run_harness(script_path, log_path) -> (rc, output, timed_out).
     Returns number of executions validated. Divergences are reported through ctx.diverge."""
     tag = re.sub(r"\W+", "_", label)
@@ -67,7 +67,13 @@ def conform(ctx, label, executions, run_harness, trace_module, trace_cfg, predic
         if "repbad" in e:
             raise Infra("projection broken in %s (output no longer has the expected shape): %s" % (label, e))
     nlines = sum(len(ex) for ex in executions) + len(executions) - 1
-    if why or bad_idx is not None or (rc not in (0,)) or len(log) != nlines:
+    if end_op is None:
+        complete = len(log) == nlines
+    else:
+        # several log lines per script line: every execution must be present and end with the closing event
+        parts = split_executions(log)
+        complete = len(parts) == len(executions) and all(ls and ls[-1].get("op") == end_op for _, ls in parts)
+    if why or bad_idx is not None or (rc not in (0,)) or not complete:
         # the real code crashed / hung / was stopped by a sanitizer while executing a behaviour of the spec
         exs = split_executions(log)
         k = len(exs) - 1
@@ -79,7 +85,7 @@ def conform(ctx, label, executions, run_harness, trace_module, trace_cfg, predic
         done = len(exs[-1][1])
         key = key_fn("crash", ex, done, None) if key_fn else "crash"
         ctx.diverge(key, "%s: the code under test did not survive a behaviour the specification allows: %s (execution %d, after %d calls; next call: %s)"
-                    % (label, why, k, done, ex[done] if done < len(ex) else "-"),
+                    % (label, why, k, done, ex[done] if (end_op is None and done < len(ex)) else "-"),
                     {"meta": meta, "label": label, "kind": "crash", "why": why, "script": ["\t".join(map(str, l)) for l in ex], "calls_completed": done,
                      "output_tail": out[-3000:], "trace_module": trace_module, "trace_cfg": trace_cfg})
         # validate what was logged before the crash (drop the crashed execution)
@@ -95,6 +101,9 @@ def conform(ctx, label, executions, run_harness, trace_module, trace_cfg, predic
             for e in log:
                 f.write(json.dumps(e) + "\n")
         ok, matched, r = ctx.validate_trace(trace_module, trace_cfg, logp, timeout=tlc_timeout, env=env, heap=heap)
+        mm = re.findall(r'<<"MATCHED", (\d+)>>', r.out)
+        if mm:
+            matched = int(mm[-1])      # specs with silent steps report the furthest line reached themselves
         if ok:
             validated += len(split_executions(log))
             break
